@@ -215,6 +215,10 @@ func (d *D) Base(idx int, ctx *core.Ctx) *core.Scenario {
 			k = keys[idx%3] // mostly the 1024-bit keys: the production key size
 		}
 		plain := answer(r)
+		if idx%5 == 1 {
+			// a long, repetitive program text: the kind of answer a format might treat specially (compress, chunk)
+			plain = strings.Repeat("print \"cookies and coding\"\nmove 10 10\n", 6+idx%7)
+		}
 		if len(plain) > 300 {
 			plain = plain[:300]
 		}
@@ -297,7 +301,8 @@ func corruptions(sealed string, allBytes bool) []Corruption {
 		for bit := 0; bit < 8; bit++ {
 			cs = append(cs, Corruption{"bytes", "flip", i, bit})
 		}
-		if allBytes {
+		if allBytes || i < 4 {
+			// the first bytes are the envelope's structure (version, length field): every value, always
 			for v := 0; v < 256; v++ {
 				if byte(v) != raw[i] && !singleBit(byte(v)^raw[i]) {
 					cs = append(cs, Corruption{"bytes", "set", i, v})
